@@ -18,11 +18,12 @@ fn c12_late_event_retained() -> (bool, String) {
     (bad, format!("record 100,10,120 dur=50ms: retained={:?} start_time={}", ts, w.start_time))
 }
 
-/// bounded search: all timestamp sequences of length <= 5 over {0,10,..,60}, durations {1,20,50}, caps {1,2,100}:
+/// bounded search: all timestamp sequences of length <= 5 (thorough tier: 7) over {0,10,..,60}, durations {1,20,50}, caps {1,2,100}:
 /// after each record into a sliding window the retained events must be exactly the newest `cap` of the
 /// recorded events that are not older than ts - dur, in arrival order.
 fn c12_record_search() -> (bool, String) {
     let dom = [0u64, 10, 20, 30, 40, 50, 60];
+    let max_len = crate::bound(5, 7);
     let mut tried = 0u64;
     for dur in [1u64, 20, 50] {
         for cap in [1usize, 2, 100] {
@@ -56,7 +57,7 @@ fn c12_record_search() -> (bool, String) {
                         return (true, format!("sliding dur={}ms cap={} record {:?}: retained={:?} expected={:?} span=[{},{})", dur, cap, s, got, kept, w.start_time, w.end_time));
                     }
                 }
-                if s.len() < 5 {
+                if s.len() < max_len {
                     for &t in &dom {
                         let mut n = s.clone();
                         n.push(t);
@@ -67,18 +68,19 @@ fn c12_record_search() -> (bool, String) {
             let _ = &mut seq;
         }
     }
-    (false, format!("{} sequences", tried))
+    (false, format!("{} sequences of <= {} timestamps over {:?} x durations 1/20/50 ms x caps 1/2/100", tried, max_len, dom))
 }
 
 /// add_event: accepted iff start <= ts < end; newest `cap` kept
 fn c12_add_event_search() -> (bool, String) {
+    let steps = crate::bound(4, 8) as u64;
     let mut tried = 0;
     for start in [0u64, 10] {
         for dur in [1u64, 10, 25] {
             for cap in [1usize, 2, 10] {
-                for a in 0..4u64 {
-                    for b in 0..4u64 {
-                        for c in 0..4u64 {
+                for a in 0..steps {
+                    for b in 0..steps {
+                        for c in 0..steps {
                             let s = [start + a * dur / 2, start + b * dur / 2 + 1, (start + c * dur).saturating_sub(1)];
                             let mut w = TimeWindow::new(WindowType::Tumbling, Duration::from_millis(dur), start, cap);
                             let mut kept: Vec<u64> = vec![];
@@ -103,7 +105,7 @@ fn c12_add_event_search() -> (bool, String) {
             }
         }
     }
-    (false, format!("{} adds", tried))
+    (false, format!("{} adds ({} positions per event)", tried, steps))
 }
 
 pub fn witnesses() -> Vec<crate::W> {
